@@ -285,7 +285,7 @@ func (e *schedEngine) build(c scCfg, x *X, plane *Plane) (mk func() *scObject) {
 				case "Marshal":
 					var b bytes.Buffer
 					db.Marshal(&b)
-					return scResult(b.Bytes(), nil)
+					return scOwnBuffer(&b)
 				case "BytesExists":
 					return scResult([]byte(fmt.Sprint(db.BytesExists(dbTypes[1].G, dbOwners[0], dbData(6)))), nil)
 				case "BytesExistsMiss":
@@ -324,7 +324,7 @@ func (e *schedEngine) build(c scCfg, x *X, plane *Plane) (mk func() *scObject) {
 				case "Marshal":
 					var b bytes.Buffer
 					db.Marshal(&b)
-					return scResult(b.Bytes(), nil)
+					return scOwnBuffer(&b)
 				case "BytesExists":
 					return scResult([]byte(fmt.Sprint(db.BytesExists(dbTypes[0].G, own, hit))), nil)
 				case "BytesExistsMiss":
@@ -459,13 +459,13 @@ func (e *schedEngine) build(c scCfg, x *X, plane *Plane) (mk func() *scObject) {
 				case "Marshal":
 					var b bytes.Buffer
 					upd.Marshal(&b)
-					return scResult(b.Bytes(), nil)
+					return scOwnBuffer(&b)
 				case "Bytes":
 					return scResult(upd.Bytes(), nil)
 				case "DescMarshal":
 					var b bytes.Buffer
 					desc.Marshal(&b)
-					return scResult(b.Bytes(), nil)
+					return scOwnBuffer(&b)
 				case "DescVerify":
 					ok, err := desc.Verify(pk.Cert)
 					return scResult([]byte(fmt.Sprint(ok)), err)
@@ -477,6 +477,20 @@ func (e *schedEngine) build(c scCfg, x *X, plane *Plane) (mk func() *scObject) {
 	}
 	harnessf("sched: object %q", c.Object)
 	return nil
+}
+
+// scOwnBuffer takes the result out of a buffer the caller handed to Marshal
+// and then reuses that buffer, as its owner may: whatever Marshal wrote must
+// have been a copy.
+func scOwnBuffer(b *bytes.Buffer) []byte {
+	out := scResult(append([]byte(nil), b.Bytes()...), nil)
+	full := b.Bytes()
+	for i := range full {
+		full[i] = 0xEE
+	}
+	b.Reset()
+	b.Write([]byte{0xEE, 0xEE, 0xEE, 0xEE})
+	return out
 }
 
 func guardResult(f func() []byte) (out []byte) {
